@@ -357,12 +357,20 @@ func (cv CertValidity) toTimeStruct() (config.CertificateValidity, error) {
 
 			all := durationRx.FindStringSubmatch(cv.Duration)
 
-			// schema already tells us it's conforming, so we ignore errors here
-			y, _ := strconv.Atoi(all[2])
-			m, _ := strconv.Atoi(all[4])
-			d, _ := strconv.Atoi(all[6])
+			// the schema tells us the form is right, but not that the numbers are sane:
+			// X.509 dates end with the year 9999, anything beyond that would silently wrap around
+			var ymd [3]int
+			for i, limit := range []int{9999, 9999 * 12, 9999 * 366} {
+				if len(all[2+2*i]) == 0 {
+					continue
+				}
+				ymd[i], err = strconv.Atoi(all[2+2*i])
+				if err != nil || ymd[i] > limit {
+					return out, errors.New(`config-v1: "duration" is out of range`)
+				}
+			}
 
-			out.Until = out.From.AddDate(y, m, d)
+			out.Until = out.From.AddDate(ymd[0], ymd[1], ymd[2])
 			out.IsSet = true
 			out.Duration = cv.Duration
 		} else {
